@@ -16,7 +16,8 @@ META = {
     "plan": {"quick": {"shards": 16, "timeout": 600, "maxlen": 5, "random": 2000, "races": 4000, "notif": 320, "lp": 64},
              "thorough": {"shards": 32, "timeout": 3000, "maxlen": 7, "random": 100000, "races": 40000, "notif": 3000, "lp": 300}},
     "rule": "arithmetic: every script up to the stated length x 4 parameter triples (split over shards) + random scripts of "
-            "length 10-60; protocol: one race = start a service, act from another thread (stop final/non-final x waiting/"
+            "length 10-60 + 8 long failure runs (400-2400 consecutive failures, multipliers 1.9 to 1e300, int and float: "
+            "mult^(k-1) beyond the cap and beyond a float; a loop that ends with an exception is a violation); protocol: one race = start a service, act from another thread (stop final/non-final x waiting/"
             "non-waiting, wake, start) at a random delay, check the call history; notifications: one round = 3 producers x "
             "20-60 notifications with random handler failures; distinct = distinct (script, triple) / (race kind, phase "
             "hit); non-trivial = script contains a failure / the race hit a recorded loop phase",
@@ -62,6 +63,18 @@ class ThreadingProxy:
         return getattr(self._real, k)
 
 
+LONG_RUNS = (
+    (("exc",) * 1100, (0.001, 4.0, 2.0)),
+    (("backoff",) * 1100, (0.001, 4.0, 2)),
+    (("noop+exc",) * 1100 + ("ok",) + ("backoff",) * 3, (0.05, 50.0, 2.0)),
+    (("exc", "backoff") * 1200, (1.0, 1000.0, 1.9)),
+    (("exc",) * 20, (0.001, 10.0, 1e30)),
+    (("backoff", "exc", "noop") * 8, (1.0, 1000.0, 1e300)),
+    (("base",) * 6 + ("ok",) + ("exc",) * 6, (3.0, 3.0, 1e200)),
+    (("exc",) * 400, (0.001, 1e12, 10)),
+)
+
+
 def arithmetic(script, triple):
     """returns problems for one script"""
     import cloudsync.runnable as RM
@@ -87,10 +100,17 @@ def arithmetic(script, triple):
                     raise Boom("scripted")
 
         s = Svc()
-        s.run(until=lambda: len(calls) > len(script), sleep=NOMINAL)
+        died = None
+        try:
+            s.run(until=lambda: len(calls) > len(script), sleep=NOMINAL)
+        except BaseException as e:      # noqa  the loop keeps running whatever the work function raises
+            died = e
     finally:
         RM.threading = real
     probs = []
+    if died is not None:
+        probs.append(("loop_ended_with_an_exception", type(died).__name__, str(died)[:120], len(calls), list(triple)))
+        return probs
     if calls[:len(script)] != list(script) or len(calls) != len(script) + 1:
         probs.append(("loop_ended_or_skipped_calls", len(calls), len(script) + 1))
         return probs
@@ -100,7 +120,10 @@ def arithmetic(script, triple):
     for i, o in enumerate(script):
         if o in ("backoff", "exc", "base", "noop+exc", "noop+backoff"):     # a call that fails is a failure whatever it said before
             k += 1
-            b = min(mx, mn * (mult ** (k - 1)))
+            try:
+                b = min(mx, mn * (mult ** (k - 1)))
+            except OverflowError:       # the power alone is beyond a float: the law's value is the cap
+                b = mx
         elif o == "ok":
             k = 0
             b = 0.0
@@ -531,6 +554,18 @@ def shard(ctx, acc):
         acc.sigs.add("ar:%d" % j)
         if j < 2:
             acc.sample({"script": list(script[:20]), "min_max_mult": list(tr)})
+        if probs:
+            acc.violation(probs[0][0], probs[:2], {"family": "ARITH", "script": list(script), "triple": list(tr)})
+    # long failure runs and huge multipliers (mult^(k-1) far beyond the cap, beyond a float): the wait stays at the cap
+    # and the loop keeps calling the work function
+    for j, (script, tr) in enumerate(LONG_RUNS):
+        if j % ctx.nshards != ctx.shard:
+            continue
+        probs = arithmetic(script, tr)
+        acc.evaluations += 1
+        acc.count("scripts_long_failure_runs")
+        acc.count("work_calls", len(script))
+        acc.sigs.add("al:%d" % j)
         if probs:
             acc.violation(probs[0][0], probs[:2], {"family": "ARITH", "script": list(script), "triple": list(tr)})
     kinds = ("final_wait", "final_nowait", "nonfinal_wait", "nonfinal_nowait", "stop_all")
